@@ -23,7 +23,9 @@ CONSTANTS StartFeature,   \* BOOLEAN: tiny-std feature `start`
           Faults          \* set of fault plans [p, sys, k, err]; NoFault always added
 
 NULL  == "NULL"
+EPERM  == 1
 ENOENT == 2
+OtherId == 1               \* an unprivileged user / group different from the caller's (which is 0, privileged)
 EINTR  == 4
 EINVAL == 22
 HelperStatus == 7 * 256    \* the helper program exits with 7
@@ -56,8 +58,8 @@ AbsCfg(c) == [bin |-> IF c.prog = "ok" THEN "bin" ELSE "nobin",
               start |-> StartFeature, penv |-> PEnv, envAlt |-> {},
               cwd |-> CASE c.cwd = "none" -> Unset [] c.cwd = "ok" -> "dirA" [] OTHER -> "dirX",
               pcwd |-> "cwd0",
-              uid |-> IF c.uid = "unset" THEN UnsetId ELSE 0, puid |-> 0,
-              gid |-> IF c.gid = "unset" THEN UnsetId ELSE 0, pgid |-> 0,
+              uid |-> CASE c.uid = "unset" -> UnsetId [] c.uid = "own" -> 0 [] OTHER -> OtherId, puid |-> 0,
+              gid |-> CASE c.gid = "unset" -> UnsetId [] c.gid = "own" -> 0 [] OTHER -> OtherId, pgid |-> 0,
               pg |-> IF c.pg = "unset" THEN UnsetId ELSE 0,
               io |-> c.io]
 
@@ -335,8 +337,12 @@ OptStep(label, next, wanted, s, nat, newim) ==
 
 Chdir   == OptStep("c_chdir", "c_setuid", cfg.cwd # "none", "chdir",
                    IF cfg.cwd = "missing" THEN ENOENT ELSE 0, [im EXCEPT !.cwd = "dirA"])
-Setuid  == OptStep("c_setuid", "c_setgid", cfg.uid # "unset", "setuid", 0, im)
-Setgid  == OptStep("c_setgid", "c_setpgid", cfg.gid # "unset", "setgid", 0, im)
+Setuid  == OptStep("c_setuid", "c_setgid", cfg.uid # "unset", "setuid", 0,
+                   [im EXCEPT !.uid = IF cfg.uid = "other" THEN OtherId ELSE 0])
+\* as coded setgid comes AFTER setuid: once the privileges are dropped the kernel refuses a foreign group
+Setgid  == OptStep("c_setgid", "c_setpgid", cfg.gid # "unset", "setgid",
+                   IF im.uid = OtherId /\ cfg.gid = "other" THEN EPERM ELSE 0,
+                   [im EXCEPT !.gid = IF cfg.gid = "other" THEN OtherId ELSE 0])
 Setpgid == OptStep("c_setpgid", "c_pre", cfg.pg # "unset", "setpgid", 0, [im EXCEPT !.pg = "own"])
 
 \* for closure in closures { closure.run()?; }   (ci re-used as closure index, reset here)
